@@ -316,6 +316,14 @@ func checkStatic(c StaticCase) error {
 	}
 	file, name := splitKey(c.Target)
 	d := p.Schema.Lookup(im.Ref{File: file, Name: name})
+	if strings.HasSuffix(c.Target, ":args") {
+		// the arguments struct of a function ("file#Svc.fn:args"): an ordinary struct whose fields are the arguments
+		fn := p.lookupFunc(strings.TrimSuffix(c.Target, ":args"))
+		if fn == nil {
+			return fmt.Errorf("function %s not in schema", c.Target)
+		}
+		d = &im.Def{Kind: im.DStruct, Name: name, Fields: fn.Args, File: file}
+	}
 	if d == nil {
 		return fmt.Errorf("definition %s not in schema", c.Target)
 	}
